@@ -3,12 +3,16 @@
   The algebraic clauses are stated over Mathlib matrices (`Matrix n n ℚ`, any finite index type, i.e.
   every size); the clauses about the loops are stated on the executable model (`LpModel/C15.lean`).
   Definitions: `LpProofs/C15/Defs.lean`; bridging lemmas list model ↔ Mathlib: `LpProofs/C15/Bridge.lean`.
+  End to end on the list model (no rounding, `sq` exact at exactly the arguments the run uses,
+  `qrSqOK` / `eigSqOK`): `qr_list_model` (Q·R = M, QᵀQ = 1, R upper triangular, for every
+  non-singular M), `eigenvalues_similar` / `eigenvalues_trace` (iterates of `Eigenvalues`).
   Convergence of the unshifted iteration and termination of inverse iteration are NOT theorems
   (correspondence / oracle only, DESIGN.md §6 C15).
 -/
 import LpModel.C15
 import LpProofs.C15.Defs
 import LpProofs.C15.Bridge
+import LpProofs.C15.QR
 import Mathlib.LinearAlgebra.Matrix.Trace
 import Mathlib.LinearAlgebra.Matrix.Determinant.Basic
 import Mathlib.LinearAlgebra.Matrix.NonsingularInverse
@@ -315,6 +319,346 @@ theorem toM_householder_orthogonal (sq : Rat → Rat) (k : Nat) (A H : Mat) (h :
   simp only [this, h2]
   rw [← Finset.sum_mul, ← hsq]
   field_simp
+
+/-! ### `QR_Decomposition` on the list model, end to end (no rounding, exact square roots) -/
+
+/-- `alpha² = ‖x‖²` whichever sign `Sign(‖x‖, −x₀)` picks -/
+theorem hhAlpha_sq (sq : Rat → Rat) (k : Nat) (A : Mat)
+    (h : sq (colSq k A) * sq (colSq k A) = colSq k A) :
+    hhAlpha sq k A * hhAlpha sq k A = colSq k A := by
+  have : hhAlpha sq k A = sq (colSq k A) ∨ hhAlpha sq k A = - sq (colSq k A) := by
+    unfold hhAlpha sign2
+    rw [show (sumTo k fun i => get A i 0 * get A i 0) = colSq k A from rfl]
+    split <;> simp
+  rcases this with h1 | h1 <;> rw [h1] <;> linear_combination h
+
+/-- **the model's reflector maps the first column of the sub-matrix to `alpha·e₁`**
+    (`householder_maps_to_e1` applied to the list model) -/
+theorem householder_maps_col (sq : Rat → Rat) (k : Nat) (A P : Mat) (hk : 0 < k)
+    (hP : householder sq id k A = some P)
+    (hα : sq (colSq k A) * sq (colSq k A) = colSq k A)
+    (hN : sq (wSq sq k A) * sq (wSq sq k A) = wSq sq k A) :
+    toM k P *ᵥ (fun i : Fin k => get A i 0) = hhAlpha sq k A • Pi.single (⟨0, hk⟩ : Fin k) 1 := by
+  obtain ⟨hne, hH⟩ := toM_householder sq k A P hP
+  have hw : (fun i : Fin k => hhWvec sq k A i)
+      = (fun i : Fin k => get A i 0) - hhAlpha sq k A • Pi.single (⟨0, hk⟩ : Fin k) 1 := by
+    funext i
+    simp [hhWvec, delta, Pi.single_apply, Fin.ext_iff]
+  have hu : (fun i : Fin k => hhWvec sq k A i / hhNw sq k A)
+      = (hhNw sq k A)⁻¹ • ((fun i : Fin k => get A i 0) - hhAlpha sq k A • Pi.single (⟨0, hk⟩ : Fin k) 1) := by
+    rw [← hw]
+    funext i
+    simp [div_eq_inv_mul]
+  rw [hH, hu]
+  refine householder_maps_to_e1 (fun i : Fin k => get A i 0) ⟨0, hk⟩ (hhAlpha sq k A) (hhNw sq k A) ?_ ?_ hne
+  · rw [hhAlpha_sq sq k A hα, colSq, sumTo_eq_sum]
+    simp only [dotProduct]
+  · rw [← hw]
+    have : hhNw sq k A = sq (wSq sq k A) := rfl
+    rw [this, hN, wSq, sumTo_eq_sum]
+    simp only [dotProduct, hhWvec, hhW]
+
+/-- … so the product `P_sub·R_sub` has a zero first column below its first entry -/
+theorem householder_col_zero (sq : Rat → Rat) (k : Nat) (A P : Mat)
+    (hP : householder sq id k A = some P)
+    (hα : sq (colSq k A) * sq (colSq k A) = colSq k A)
+    (hN : sq (wSq sq k A) * sq (wSq sq k A) = wSq sq k A) :
+    ∀ a, 0 < a → a < k → get (mul id k P A) a 0 = 0 := by
+  intro a ha0 hak
+  have hk : 0 < k := by omega
+  have h1 : get (mul id k P A) a 0 = (toM k P * toM k A) ⟨a, hak⟩ ⟨0, hk⟩ := by
+    rw [← toM_mul]; rfl
+  have h2 : (toM k P * toM k A) ⟨a, hak⟩ ⟨0, hk⟩ = (toM k P *ᵥ (fun i : Fin k => get A i 0)) ⟨a, hak⟩ := rfl
+  rw [h1, h2, householder_maps_col sq k A P hk hP hα hN]
+  have : (⟨a, hak⟩ : Fin k) ≠ ⟨0, hk⟩ := by
+    intro h; rw [Fin.ext_iff] at h; simp at h; omega
+  simp [this]
+
+/-- **each step's `P`** (block embedding `[[1,0],[0,P_sub]]` of the reflector of the current
+    sub-matrix) **is symmetric and orthogonal** -/
+theorem qr_P_symm_orth (sq : Rat → Rat) (n i : Nat) (hi : i ≤ n) (Rsub P : Mat)
+    (hP : householder sq id (n - i) Rsub = some P)
+    (hN : sq (wSq sq (n - i) Rsub) * sq (wSq sq (n - i) Rsub) = wSq sq (n - i) Rsub) :
+    (toM n (embed n i P))ᵀ = toM n (embed n i P) ∧ toM n (embed n i P) * toM n (embed n i P) = 1 := by
+  have hPo := toM_householder_orthogonal sq (n - i) Rsub P hP hN
+  exact toM_embed_symm_orth n i hi P hPo.1 hPo.2
+
+/-- **one iteration of the loop of `QR_Decomposition` preserves the invariant** `QRInv`
+    (`Q·R = M`, `Q` orthogonal, first `i` columns of `R` upper triangular, `R_submatrix` = trailing
+    block of `R`); in particular the explicit zeroing changes nothing (`zeroBelow_noop`). -/
+theorem qr_step_inv (sq : Rat → Rat) (n i : Nat) (hi : i < n) (M Q R Rsub P : Mat)
+    (inv : QRInv n i M Q R Rsub) (hP : householder sq id (n - i) Rsub = some P)
+    (hα : sq (colSq (n - i) Rsub) * sq (colSq (n - i) Rsub) = colSq (n - i) Rsub)
+    (hN : sq (wSq sq (n - i) Rsub) * sq (wSq sq (n - i) Rsub) = wSq sq (n - i) Rsub) :
+    QRInv n (i + 1) M (mul id n Q (embed n i P)) (zeroBelow n i (mul id n (embed n i P) R))
+      (sub00 (n - i) (mul id (n - i) P Rsub)) := by
+  have hcol := householder_col_zero sq (n - i) Rsub P hP hα hN
+  have hPo := toM_householder_orthogonal sq (n - i) Rsub P hP hN
+  obtain ⟨hEt, hEE⟩ := toM_embed_symm_orth n i hi.le P hPo.1 hPo.2
+  have hR' : toM n (zeroBelow n i (mul id n (embed n i P) R)) = toM n (embed n i P) * toM n R := by
+    rw [← toM_mul]
+    exact toM_congr n _ _ (fun a b ha hb => zeroBelow_noop n i hi P R Rsub inv.sub hcol a b ha hb)
+  refine ⟨?_, ?_, ?_, ?_⟩
+  · rw [hR', toM_mul]
+    calc toM n Q * toM n (embed n i P) * (toM n (embed n i P) * toM n R)
+        = toM n Q * (toM n (embed n i P) * toM n (embed n i P)) * toM n R := by
+          simp only [Matrix.mul_assoc]
+      _ = toM n M := by rw [hEE, Matrix.mul_one, inv.prod]
+  · rw [toM_mul]
+    calc (toM n Q * toM n (embed n i P))ᵀ * (toM n Q * toM n (embed n i P))
+        = (toM n (embed n i P))ᵀ * ((toM n Q)ᵀ * toM n Q) * toM n (embed n i P) := by
+          simp only [transpose_mul, Matrix.mul_assoc]
+      _ = 1 := by rw [inv.orth, Matrix.mul_one, hEt, hEE]
+  · intro a b ha hb hba
+    exact step_upper n i hi P R Rsub inv.upper inv.sub hcol a b ha hb hba
+  · intro a b ha hb
+    exact step_sub n i hi P R Rsub inv.sub hcol a b ha hb
+
+/-- `‖x − alpha·e₁‖² = ‖x‖² − 2·alpha·x₀ + alpha²` -/
+theorem wSq_eq (sq : Rat → Rat) (k : Nat) (A : Mat) (hk : 0 < k) :
+    wSq sq k A = colSq k A - 2 * hhAlpha sq k A * get A 0 0 + hhAlpha sq k A * hhAlpha sq k A := by
+  unfold wSq colSq
+  rw [sumTo_split 1 k hk, sumTo_split 1 k hk (fun i => get A i 0 * get A i 0)]
+  have h : sumTo (k - 1) (fun c => hhW sq k A (c + 1) * hhW sq k A (c + 1))
+      = sumTo (k - 1) (fun c => get A (c + 1) 0 * get A (c + 1) 0) :=
+    sumTo_congr _ _ _ (fun c _ => by simp [hhW, delta])
+  rw [h]
+  simp only [sumTo, List.range_one, List.foldl_cons, List.foldl_nil, hhW, delta, if_true]
+  ring
+
+/-- **`Householder_Matrix` does not divide by zero on a non-zero column** (exact roots): with the
+    coded sign of `alpha` there is no cancellation in `x − alpha·e₁` (`hh_no_cancellation`). -/
+theorem householder_isSome (sq : Rat → Rat) (k : Nat) (A : Mat) (hk : 0 < k)
+    (h1 : SqAt sq (colSq k A)) (h2 : SqAt sq (wSq sq k A)) (h0 : colSq k A ≠ 0) :
+    ∃ P, householder sq id k A = some P := by
+  have hnx : 0 < sq (colSq k A) := by
+    rcases lt_or_eq_of_le h1.sq_nonneg with h | h
+    · exact h
+    · exfalso; apply h0; rw [← h1.sq_mul, ← h]; ring
+  have hpos := (hh_no_cancellation (colSq k A) (sq (colSq k A)) (get A 0 0) hnx h1.sq_mul).2.2
+  have hw : 0 < wSq sq k A := by
+    rw [wSq_eq sq k A hk]
+    exact hpos
+  have hne : hhNw sq k A ≠ 0 := by
+    intro h
+    have h3 := h2.sq_mul
+    rw [show sq (wSq sq k A) = hhNw sq k A from rfl, h] at h3
+    linarith
+  have hwl : ∀ i, i < k → ((List.range k).map fun i => get A i 0 - hhAlpha sq k A * delta i 0).getD i 0
+      = get A i 0 - hhAlpha sq k A * delta i 0 := by
+    intro i hi
+    simp [List.getD_eq_getElem?_getD, hi]
+  have hsum : (sumTo k fun i => ((List.range k).map fun i => get A i 0 - hhAlpha sq k A * delta i 0).getD i 0 *
+      ((List.range k).map fun i => get A i 0 - hhAlpha sq k A * delta i 0).getD i 0)
+      = sumTo k fun i => hhW sq k A i * hhW sq k A i := by
+    apply sumTo_congr
+    intro i hi
+    rw [hwl i hi]; rfl
+  simp only [householder]
+  rw [hsum, if_neg (show ¬ sq (sumTo k fun i => hhW sq k A i * hhW sq k A i) = 0 from hne)]
+  exact ⟨_, rfl⟩
+
+/-- **a non-singular matrix never meets a zero pivot column**: under the loop invariant, if the
+    first column of `R_submatrix` vanished, `R` (hence `M = Q·R`) would be singular. -/
+theorem colSq_ne_zero_of_det (n i : Nat) (hi : i < n) (M Q R Rsub : Mat) (inv : QRInv n i M Q R Rsub)
+    (hdet : (toM n M).det ≠ 0) : colSq (n - i) Rsub ≠ 0 := by
+  intro h0
+  have hz := sumTo_sq_eq_zero (n - i) (fun c => get Rsub c 0) h0
+  apply hdet
+  rw [← inv.prod, det_mul]
+  have : (toM n R).det = 0 := by
+    apply det_eq_zero_of_pivot_col_zero (toM n R) ⟨i, hi⟩
+    · intro a b hb hba
+      exact inv.upper a b a.2 hb hba
+    · intro a ha
+      have ha' : ¬ (a : Nat) < i := ha
+      have h1 := inv.sub (a - i) 0 (by omega) (by omega)
+      have h2 : (a : Nat) - i + i = a := by omega
+      rw [h2, Nat.zero_add] at h1
+      show get R a i = 0
+      rw [← h1]
+      exact hz (a - i) (by omega)
+  rw [this, mul_zero]
+
+/-- the loop of `QR_Decomposition` from any state satisfying the invariant: whatever it returns is
+    a QR factorisation -/
+theorem qrLoop_inv (sq : Rat → Rat) (n : Nat) (M : Mat) (steps i : Nat) (hn : i + steps = n)
+    (Q R Rsub : Mat) (inv : QRInv n i M Q R Rsub) (hsq : qrSqOK sq n i steps Rsub)
+    (Q' R' : Mat) (h : qrLoop sq id n i steps Q R Rsub = some (Q', R')) :
+    toM n Q' * toM n R' = toM n M ∧ (toM n Q')ᵀ * toM n Q' = 1 ∧
+      ∀ a b, a < n → b < a → get R' a b = 0 := by
+  induction steps generalizing i Q R Rsub with
+  | zero =>
+    simp only [qrLoop, Option.some.injEq, Prod.mk.injEq] at h
+    obtain ⟨rfl, rfl⟩ := h
+    have : i = n := by omega
+    subst this
+    exact ⟨inv.prod, inv.orth, fun a b ha hba => inv.upper a b ha (by omega) hba⟩
+  | succ s ih =>
+    simp only [qrLoop] at h
+    obtain ⟨h1, h2, h3⟩ := hsq
+    split at h
+    · simp at h
+    · rename_i P hP
+      exact ih (i + 1) (by omega) _ _ _ (qr_step_inv sq n i (by omega) M Q R Rsub P inv hP h1.sq_mul h2.sq_mul)
+        (h3 P hP) h
+
+/-- … and for a non-singular matrix it does return (no zero pivot column is met) -/
+theorem qrLoop_isSome (sq : Rat → Rat) (n : Nat) (M : Mat) (hdet : (toM n M).det ≠ 0)
+    (steps i : Nat) (hn : i + steps = n)
+    (Q R Rsub : Mat) (inv : QRInv n i M Q R Rsub) (hsq : qrSqOK sq n i steps Rsub) :
+    ∃ Q' R', qrLoop sq id n i steps Q R Rsub = some (Q', R') := by
+  induction steps generalizing i Q R Rsub with
+  | zero => exact ⟨Q, R, rfl⟩
+  | succ s ih =>
+    obtain ⟨h1, h2, h3⟩ := hsq
+    have hi : i < n := by omega
+    obtain ⟨P, hP⟩ := householder_isSome sq (n - i) Rsub (by omega) h1 h2
+      (colSq_ne_zero_of_det n i hi M Q R Rsub inv hdet)
+    obtain ⟨Q', R', h⟩ := ih (i + 1) (by omega) _ _ _
+      (qr_step_inv sq n i hi M Q R Rsub P inv hP h1.sq_mul h2.sq_mul) (h3 P hP)
+    refine ⟨Q', R', ?_⟩
+    simp only [qrLoop, hP]
+    exact h
+
+/-- the invariant holds initially: `Q = 1`, `R = R_submatrix = M` -/
+theorem qrInv_init (n : Nat) (M : Mat) : QRInv n 0 M (ident n) M M :=
+  ⟨by rw [toM_ident, Matrix.one_mul], by rw [toM_ident]; simp, fun _ _ _ hb _ => absurd hb (Nat.not_lt_zero _),
+   fun _ _ _ _ => rfl⟩
+
+/-- **QR_Decomposition, list model, end to end — whatever it returns**: without rounding and with
+    exact square roots at the arguments actually used (`qrSqOK`), a result `(Q, R)` of the model's
+    `qrDecomposition` satisfies `Q·R = M`, `QᵀQ = 1`, and `R` is upper triangular. -/
+theorem qr_list_model_of_some (sq : Rat → Rat) (n : Nat) (M : Mat) (hsq : qrSqOK sq n 0 n M)
+    (Q R : Mat) (h : qrDecomposition sq id n M = some (Q, R)) :
+    toM n Q * toM n R = toM n M ∧ (toM n Q)ᵀ * toM n Q = 1 ∧ ∀ a b : Fin n, b < a → toM n R a b = 0 := by
+  obtain ⟨h1, h2, h3⟩ := qrLoop_inv sq n M n 0 (by omega) _ _ _ (qrInv_init n M) hsq Q R h
+  exact ⟨h1, h2, fun a b hba => h3 a b a.2 hba⟩
+
+/-- **QR_Decomposition, list model, end to end**: for every non-singular square matrix over ℚ for
+    which the square roots taken by the run exist rationally, the model (no rounding) returns
+    `(Q, R)` with `Q·R = M`, `Q` orthogonal and `R` upper triangular. -/
+theorem qr_list_model (sq : Rat → Rat) (n : Nat) (M : Mat) (hdet : (toM n M).det ≠ 0)
+    (hsq : qrSqOK sq n 0 n M) :
+    ∃ Q R, qrDecomposition sq id n M = some (Q, R) ∧
+      toM n Q * toM n R = toM n M ∧ (toM n Q)ᵀ * toM n Q = 1 ∧ ∀ a b : Fin n, b < a → toM n R a b = 0 := by
+  obtain ⟨Q, R, h⟩ := qrLoop_isSome sq n M hdet n 0 (by omega) _ _ _ (qrInv_init n M) hsq
+  exact ⟨Q, R, h, qr_list_model_of_some sq n M hsq Q R h⟩
+
+theorem qrSqOK_of_check (sq : Rat → Rat) (n : Nat) (steps i : Nat) (Rsub : Mat)
+    (h : qrSqCheck sq n i steps Rsub = true) : qrSqOK sq n i steps Rsub := by
+  induction steps generalizing i Rsub with
+  | zero => trivial
+  | succ s ih =>
+    simp only [qrSqCheck, Bool.and_eq_true, decide_eq_true_eq] at h
+    obtain ⟨⟨⟨h1, h1'⟩, h2, h2'⟩, h3⟩ := h
+    refine ⟨⟨h1, h1'⟩, ⟨h2, h2'⟩, ?_⟩
+    intro P hP
+    rw [hP] at h3
+    exact ih _ _ h3
+
+-- non-vacuity of `qr_list_model`: the 2×2 and 3×3 Pythagorean matrices, with the driver's square root
+-- (exact on rational squares); and the factors the model returns for the 2×2 one
+example : (toM 2 exM2).det ≠ 0 ∧ qrSqOK (sqApprox 0) 2 0 2 exM2 := by
+  refine ⟨?_, qrSqOK_of_check _ _ _ _ _ (by decide +kernel)⟩
+  rw [Matrix.det_fin_two]
+  simp only [toM]
+  decide +kernel
+example : (toM 3 exM3).det ≠ 0 ∧ qrSqOK (sqApprox 0) 3 0 3 exM3 := by
+  refine ⟨?_, qrSqOK_of_check _ _ _ _ _ (by decide +kernel)⟩
+  rw [Matrix.det_fin_three]
+  simp only [toM]
+  decide +kernel
+-- the hypotheses of the step lemmas (`householder_maps_col`, `qr_step_inv`, `householder_isSome`) on it:
+-- `‖(7,24)‖² = 625`, `‖(7,24) + 25·e₁‖² = 1600`, the reflector is the rational matrix shown
+example : householder (sqApprox 0) id 2 exM2 = some [[-7/25, -24/25], [-24/25, 7/25]] ∧
+    SqAt (sqApprox 0) (colSq 2 exM2) ∧ SqAt (sqApprox 0) (wSq (sqApprox 0) 2 exM2) ∧
+    colSq 2 exM2 = 625 ∧ wSq (sqApprox 0) 2 exM2 = 1600 :=
+  ⟨by decide +kernel, ⟨by decide +kernel, by decide +kernel⟩, ⟨by decide +kernel, by decide +kernel⟩,
+   by decide +kernel, by decide +kernel⟩
+example : qrDecomposition (sqApprox 0) id 2 exM2 = some ([[-7/25, 24/25], [-24/25, -7/25]], [[-25, -24], [0, -7]]) := by
+  decide +kernel
+
+/-! ### the iterates of `Eigenvalues` are orthogonally similar to the matrix (list model, no rounding) -/
+
+/-- one model step `A ↦ R·Q` is a QR step in the sense of `IsQRStep`, with the `Q` of the model -/
+theorem qrStep_model (sq : Rat → Rat) (n : Nat) (A A' : Mat) (hsq : qrSqOK sq n 0 n A)
+    (h : qrStep sq id n A = some A') :
+    ∃ Q : Matrix (Fin n) (Fin n) ℚ, Qᵀ * Q = 1 ∧ toM n A' = Qᵀ * toM n A * Q ∧ IsQRStep (toM n A) (toM n A') := by
+  simp only [qrStep] at h
+  split at h
+  · simp at h
+  · rename_i Q R hQR
+    simp only [Option.some.injEq] at h
+    subst h
+    obtain ⟨h1, h2, _⟩ := qr_list_model_of_some sq n A hsq Q R hQR
+    have hsim := (qrStep_similar (toM n A) (toM n Q) (toM n R) h1 h2).1
+    exact ⟨toM n Q, h2, by rw [toM_mul, hsim], toM n Q, toM n R, h1, h2, toM_mul n R Q⟩
+
+theorem eigSqOK_of_check (sq : Rat → Rat) (n k : Nat) (A : Mat) (h : eigSqCheck sq n k A = true) :
+    eigSqOK sq n k A := by
+  induction k generalizing A with
+  | zero => trivial
+  | succ k ih =>
+    simp only [eigSqCheck, Bool.and_eq_true] at h
+    refine ⟨qrSqOK_of_check _ _ _ _ _ h.1, ?_⟩
+    intro A' hA'
+    have h2 := h.2
+    rw [hA'] at h2
+    exact ih _ h2
+
+/-- **every iterate of the model's `Eigenvalues` loop is `Qₖᵀ·M·Qₖ` for an orthogonal `Qₖ`**
+    (no rounding, exact roots at the arguments used), hence has the characteristic polynomial,
+    trace and determinant of `M`, and is symmetric when `M` is. -/
+theorem eigenvalues_similar (sq : Rat → Rat) (n k : Nat) (M A' : Mat) (hsq : eigSqOK sq n k M)
+    (h : qrIterate sq id n k M = some A') :
+    (∃ Qk : Matrix (Fin n) (Fin n) ℚ, Qkᵀ * Qk = 1 ∧ toM n A' = Qkᵀ * toM n M * Qk) ∧
+      (toM n A').charpoly = (toM n M).charpoly ∧ trace (toM n A') = trace (toM n M) ∧
+      det (toM n A') = det (toM n M) ∧ ((toM n M)ᵀ = toM n M → (toM n A')ᵀ = toM n A') := by
+  have key : (∃ Qk : Matrix (Fin n) (Fin n) ℚ, Qkᵀ * Qk = 1 ∧ toM n A' = Qkᵀ * toM n M * Qk) ∧
+      Relation.ReflTransGen IsQRStep (toM n M) (toM n A') := by
+    induction k generalizing M with
+    | zero =>
+      simp only [qrIterate, Option.some.injEq] at h
+      subst h
+      exact ⟨⟨1, by simp, by simp⟩, Relation.ReflTransGen.refl⟩
+    | succ k ih =>
+      simp only [qrIterate] at h
+      cases h1 : qrStep sq id n M with
+      | none => rw [h1] at h; simp at h
+      | some A1 =>
+        rw [h1] at h
+        simp only [Option.bind_some] at h
+        obtain ⟨Q, hQ, hA1, hstep⟩ := qrStep_model sq n M A1 hsq.1 h1
+        obtain ⟨⟨Q', hQ', hA'⟩, hrel⟩ := ih A1 (hsq.2 A1 h1) h
+        refine ⟨⟨Q * Q', ?_, ?_⟩, Relation.ReflTransGen.head hstep hrel⟩
+        · calc (Q * Q')ᵀ * (Q * Q') = Q'ᵀ * (Qᵀ * Q) * Q' := by
+                simp only [transpose_mul, Matrix.mul_assoc]
+            _ = 1 := by rw [hQ, Matrix.mul_one, hQ']
+        · rw [hA', hA1]
+          simp only [transpose_mul, Matrix.mul_assoc]
+  exact ⟨key.1, qrIter_invariants _ _ key.2⟩
+
+/-- **what `Eigenvalues` returns sums to the trace exactly** (and is the diagonal of a matrix with the
+    characteristic polynomial of `M`): list model without rounding, exact roots along the run. -/
+theorem eigenvalues_trace (sq : Rat → Rat) (n : Nat) (M : Mat) (l : List Rat) (k : Nat)
+    (h : eigenvalues sq id n M = .ok l k) (hsq : eigSqOK sq n k M) :
+    l.sum = trace (toM n M) ∧
+      ∃ A', l = diagonal n A' ∧ converged n A' = true ∧ (toM n A').charpoly = (toM n M).charpoly ∧
+        det (toM n A') = det (toM n M) := by
+  obtain ⟨A', _, _, hit, hc, hl⟩ := eigenvalues_spec sq id n M l k h
+  obtain ⟨_, hcp, htr, hdet, _⟩ := eigenvalues_similar sq n k M A' hsq hit
+  refine ⟨?_, A', hl, hc, hcp, hdet⟩
+  rw [← htr, hl, diagonal, sum_map_range_eq_sumTo, sumTo_eq_sum]
+  rfl
+
+-- non-vacuity of `eigenvalues_similar` / `eigenvalues_trace`: one step on the Pythagorean matrix
+-- (trace 32 = 7 + 25 kept), and a full run of `Eigenvalues` (12 steps) on diag(2,1)
+example : eigSqOK (sqApprox 0) 2 1 exM2 ∧
+    qrIterate (sqApprox 0) id 2 1 exM2 = some [[751/25, -432/25], [168/25, 49/25]] :=
+  ⟨eigSqOK_of_check _ _ _ _ (by decide +kernel), by decide +kernel⟩
+example : eigenvalues (sqApprox 0) id 2 witnessM = .ok [2, 1] 12 ∧ eigSqOK (sqApprox 0) 2 12 witnessM :=
+  ⟨by decide +kernel, eigSqOK_of_check _ _ _ _ (by decide +kernel)⟩
 
 /-! ### known finding: Eigensystem / Eigenvectors (DESIGN.md §6 C15) -/
 
